@@ -9,9 +9,10 @@ PROPS = 'Srctools.Props.C07'
 RULE = ("a case = one history (operation sequence) on one or two VMF objects, observed after EVERY operation: "
         "sorted dumps of by_class / by_target (empty sets dropped), the entities list, every entity's keyvalues "
         "and list(search(q)) for 19 queries, compared with the Lean model and with a direct scan of "
-        "vmf.entities + worldspawn. exhaustive part: all histories of length <= L (3 quick, 4 thorough) over a 16-operation "
+        "vmf.entities + worldspawn. exhaustive part: all histories of length <= L (3 quick, 4 thorough) over a 17-operation "
         "alphabet acting on one mixed-case entity; random part: histories of length <= 40 over create/construct/add/"
-        "add_ents/remove/[]=/del/pop/popitem/clear/update/make_unique/copy (same and other map)/VMF.parse/iterate an "
+        "add_ents/remove/[]=/del/pop(+default)/popitem/clear(_keys)/update (mapping, pairs, kwargs, mixed)/setdefault/|=/keys=/"
+        "keys-view deletion/make_unique/copy (same and other map)/VMF.parse/iterate an "
         "index while mutating, names from pools with 3 spellings of each name, '' and absent. non-trivial = at least "
         "one mutation of an entity whose class or name is not already case-folded; distinct by content.")
 TRUSTED = ["model: lean/Srctools/Model/C07.lean (indexes as relations key x entity; str.casefold abstract in the theorems, "
@@ -50,6 +51,8 @@ class World:
     """Two VMFs and every Entity object made for each, in creation order (index = model id)."""
 
     def __init__(self):
+        import warnings
+        warnings.simplefilter('ignore', DeprecationWarning)   # Entity.keys property (deprecated, still public)
         from srctools.vmf import VMF
         self.maps = [VMF(), VMF()]
         self.objs = [[self.maps[0].spawn], [self.maps[1].spawn]]
@@ -67,6 +70,8 @@ class _Skip(Exception):
 def _err(exc):
     if isinstance(exc, ValueError):
         return 1
+    if isinstance(exc, TypeError) and 'unsupported operand' in str(exc):
+        return 4
     if isinstance(exc, KeyError):
         return 2 if exc.args else 3
     return 'exc:' + type(exc).__name__
@@ -131,13 +136,42 @@ def apply_impl(W, op):
             else:
                 del e[tuple(ks)]
         elif kind == 'pop':
-            ent().pop(uncodes(op['k']))
+            if 'default' in op:
+                ent().pop(uncodes(op['k']), uncodes(op['default']))
+            else:
+                ent().pop(uncodes(op['k']))
         elif kind == 'popitem':
             ent().popitem()
         elif kind == 'clear':
-            ent().clear()
+            if op.get('alias'):
+                ent().clear_keys()
+            else:
+                ent().clear()
         elif kind == 'update':
-            ent().update(dict(_unkvs(op['kvs'])))
+            pairs = _unkvs(op['kvs'])
+            form = op.get('form', 'map')
+            if form == 'pairs':
+                ent().update(iter(pairs))
+            elif form == 'kwargs':
+                ent().update(**dict(pairs))
+            elif form == 'mixed':
+                ent().update(dict(pairs[:1]), **dict(pairs[1:]))
+            else:
+                ent().update(dict(pairs))
+        elif kind == 'setdefault':
+            ent().setdefault(uncodes(op['k']), uncodes(op['v']))
+        elif kind == 'ior':
+            e = ent()
+            e |= dict(_unkvs(op['kvs']))
+        elif kind == 'setkeys':
+            ent().keys = dict(_unkvs(op['kvs']))
+        elif kind == 'deleach':
+            e = ent()
+            for k in list(e.keys()):
+                try:
+                    del e[k]
+                except KeyError:
+                    pass
         elif kind == 'unique':
             ent().make_unique(uncodes(op['pre']))
         elif kind == 'copy':
@@ -352,7 +386,7 @@ def _act(rng):
     return {'a': 'create', 'cls': codes(rng.choice(CLASSES)), 'kw': _kvs(_kwargs(rng))}
 
 
-KINDS = [('create', 16), ('construct', 4), ('add', 7), ('adds', 2), ('remove', 9), ('set', 22), ('del', 6), ('pop', 6),
+KINDS = [('setdefault', 5), ('ior', 1), ('setkeys', 2), ('deleach', 1), ('create', 16), ('construct', 4), ('add', 7), ('adds', 2), ('remove', 9), ('set', 22), ('del', 6), ('pop', 6),
          ('popitem', 1), ('clear', 3), ('update', 4), ('unique', 6), ('copy', 3), ('copyx', 4), ('parse', 1),
          ('iterc', 4), ('itert', 4)]
 
@@ -398,11 +432,29 @@ def gen_op(rng, W, nmaps):
         ks = [rng.choice(TGT_KEYS + TGT_KEYS + OTHER_KEYS + CLS_KEYS[:1]) for _ in range(n)]
         return {'m': m, 'op': 'del', 'e': some_ent(), 'ks': [codes(k) for k in ks], 'tuple': rng.random() < 0.3}
     if kind == 'pop':
-        return {'m': m, 'op': 'pop', 'e': some_ent(), 'k': codes(rng.choice(TGT_KEYS + TGT_KEYS + CLS_KEYS + OTHER_KEYS))}
-    if kind in ('popitem', 'clear', 'copy', 'copyx'):
+        op = {'m': m, 'op': 'pop', 'e': some_ent(), 'k': codes(rng.choice(TGT_KEYS + TGT_KEYS + CLS_KEYS + OTHER_KEYS))}
+        if rng.random() < 0.4:
+            op['default'] = codes(rng.choice(NAMES))
+        return op
+    if kind == 'clear':
+        return {'m': m, 'op': 'clear', 'e': some_ent(), 'alias': rng.random() < 0.3}
+    if kind in ('popitem', 'copy', 'copyx', 'deleach'):
         return {'m': m, 'op': kind, 'e': some_ent()}
     if kind == 'update':
-        return {'m': m, 'op': 'update', 'e': some_ent(), 'kvs': _kvs(_pick_kvs(rng, rng.randrange(0, 4)))}
+        # mapping / iterable-of-pairs / keyword / mapping+keyword forms of MutableMapping.update
+        return {'m': m, 'op': 'update', 'e': some_ent(), 'kvs': _kvs(_pick_kvs(rng, rng.randrange(0, 4))),
+                'form': rng.choice(['map', 'pairs', 'kwargs', 'mixed'])}
+    if kind == 'setdefault':
+        r = rng.random()
+        if r < 0.55:
+            k, v = rng.choice(TGT_KEYS), rng.choice(NAMES)
+        elif r < 0.9:
+            k, v = rng.choice(CLS_KEYS), rng.choice(CLASSES)
+        else:
+            k, v = rng.choice(OTHER_KEYS), '1'
+        return {'m': m, 'op': 'setdefault', 'e': some_ent(), 'k': codes(k), 'v': codes(v)}
+    if kind in ('ior', 'setkeys'):
+        return {'m': m, 'op': kind, 'e': some_ent(), 'kvs': _kvs(_pick_kvs(rng, rng.randrange(0, 4)))}
     if kind == 'unique':
         return {'m': m, 'op': 'unique', 'e': some_ent(), 'pre': codes(rng.choice(['', 'foo', 'Foo', 'ent', 'bar7']))}
     if kind == 'parse':
@@ -452,6 +504,7 @@ ALPHABET = [
     {'m': 0, 'op': 'set', 'e': 0, 'k': _c('targetname'), 'v': _c('World')},
     {'m': 0, 'op': 'set', 'e': 0, 'k': _c('classname'), 'v': _c('func_door')},
     {'m': 0, 'op': 'itert', 'key': _c('foo'), 'act': {'a': 'set', 'k': _c('targetname'), 'v': _c('FOO')}},
+    {'m': 0, 'op': 'setdefault', 'e': 1, 'k': _c('TargetName'), 'v': _c('Baz')},
 ]
 
 
@@ -467,6 +520,16 @@ FIXED = [
     [{'m': 0, 'op': 'parse', 'spawn': _kvs([('targetname', 'World'), ('classname', 'WorldSpawn')]), 'ents': []},
      {'m': 0, 'op': 'set', 'e': 1, 'k': _c('targetname'), 'v': _c('')}],
     [{'m': 0, 'op': 'remove', 'e': 0}],
+    # setdefault on an unnamed entity in the map / on a class-less entity / on a copy in the other map
+    [{'m': 0, 'op': 'create', 'cls': _c('info_target'), 'kw': []},
+     {'m': 0, 'op': 'setdefault', 'e': 1, 'k': _c('TargetName'), 'v': _c('Baz')}, {'m': 0, 'op': 'remove', 'e': 1}],
+    [{'m': 0, 'op': 'construct', 'kvs': []}, {'m': 0, 'op': 'add', 'e': 1},
+     {'m': 0, 'op': 'setdefault', 'e': 1, 'k': _c('classname'), 'v': _c('Func_Door')}, {'m': 0, 'op': 'remove', 'e': 1}],
+    [{'m': 0, 'op': 'create', 'cls': _c('info_null'), 'kw': []}, {'m': 0, 'op': 'copyx', 'e': 1}, {'m': 1, 'op': 'add', 'e': 1},
+     {'m': 1, 'op': 'setdefault', 'e': 1, 'k': _c('targetname'), 'v': _c('clone')},
+     {'m': 1, 'op': 'set', 'e': 1, 'k': _c('targetname'), 'v': _c('x')}, {'m': 1, 'op': 'remove', 'e': 1}],
+    [{'m': 0, 'op': 'create', 'cls': _c('a'), 'kw': []}, {'m': 0, 'op': 'ior', 'e': 1, 'kvs': _kvs([('targetname', 'Foo')])},
+     {'m': 0, 'op': 'setkeys', 'e': 1, 'kvs': _kvs([('TargetName', 'Foo'), ('classname', 'B')])}, {'m': 0, 'op': 'deleach', 'e': 1}],
     [{'m': 0, 'op': 'create', 'cls': _c('a'), 'kw': _kvs([('targetname', 'x')])}, {'m': 0, 'op': 'copyx', 'e': 1},
      {'m': 1, 'op': 'add', 'e': 1}, {'m': 1, 'op': 'set', 'e': 1, 'k': _c('targetname'), 'v': _c('Y')}, {'m': 0, 'op': 'remove', 'e': 1}],
 ]
@@ -510,7 +573,7 @@ def _histories(ctx):
         yield 'fixed', h
     for h in gen_exhaustive(L):
         yield 'exhaustive', h
-    for _ in range(ctx.budget(1500, 25000)):
+    for _ in range(ctx.budget(1500, 15000)):
         yield 'random', gen_history(ctx.rng)
 
 
